@@ -51,6 +51,9 @@ def one(seed):
             res["apply_error"] = out[-300:]
             return res
         demo = os.path.join(d, "demo.py")
+        if seed.startswith("B-"):
+            rc, out = sh(f"{PY} -m pytest -q -p no:cacheprovider -x --timeout=900 {scratch}/tests", cwd=scratch, env={"PYTHONPATH": f"{scratch}/src"})
+            res["tests_pass_with_change"] = rc == 0
         if os.path.exists(demo):
             rc, out = sh(f"{PY} -m pytest -q -p no:cacheprovider -x --timeout=900 {scratch}/tests", cwd=scratch, env={"PYTHONPATH": f"{scratch}/src"})
             res["tests_pass_with_change"] = rc == 0
@@ -91,7 +94,14 @@ def main():
                 meta = json.load(open(meta_path))
             except Exception:
                 meta = {}
-        target = meta.get("property") or (seed.split("-")[0] if not seed.startswith("regress") else open(os.path.join(d, "props.txt")).read().strip())
+        if seed.startswith("regress"):
+            target = open(os.path.join(d, "props.txt")).read().strip()
+        elif seed.startswith("r2-"):
+            target = seed.split("-")[1]
+        elif seed.startswith(("B-", "benign-")):
+            target = "none (behaviour-preserving)"
+        else:
+            target = seed.split("-")[0]
         detected = {c: v["rules"] for c, v in r.get("checks", {}).items() if v["rc"] == 1}
         errors = {c: v["analysis_error"] for c, v in r.get("checks", {}).items() if v["rc"] == 2}
         needs = meta.get("needs_to_manifest", "")
@@ -113,7 +123,7 @@ def main():
             "demo_passes_without_change": r.get("demo_passes_without_change"),
             "detected_by": detected,
             "analysis_errors": errors,
-            "confirmed": bool(r.get("applies")) and (seed.startswith("regress") or (r.get("tests_pass_with_change") and r.get("demo_fails_with_change") and r.get("demo_passes_without_change"))),
+            "confirmed": bool(r.get("applies")) and (seed.startswith("regress") or (seed.startswith(("B-", "benign-")) and r.get("tests_pass_with_change", True)) or (r.get("tests_pass_with_change") and r.get("demo_fails_with_change") and r.get("demo_passes_without_change"))),
         })
         json.dump(meta, open(meta_path, "w"), indent=1)
         rows.append(meta)
